@@ -65,11 +65,11 @@ def simulate_search(prog, start, alias, alias_of):
 
 def run(ctx):
     prog = ctx.prog
-    registry(ctx)
-    search(ctx)
-    dispatch(ctx)
-    normalise(ctx)
-    shims(ctx)
+    ctx.rule(registry)
+    ctx.rule(search)
+    ctx.rule(dispatch)
+    ctx.rule(normalise)
+    ctx.rule(shims)
 
 
 # ------------------------------------------------------------------ R-C08-registry
